@@ -153,7 +153,7 @@ Ltac wait_loop_tac d :=
   intros body Hbody;
   induction k as [|k IH]; intros l w' Hl;
   [ reflexivity
-  | rewrite wait_unfold; cbn [s_while]; unfold p_before at 1; rewrite Hl;
+  | rewrite wait_unfold; cbn [s_while]; rewrite Hl; unfold p_before at 1;
     rewrite Zltb_N, Zeqb_N; cbv zeta; cbn [wnow wenv wsrv wtrace wtie];
     destruct (wnow w' <? d); [|reflexivity];
     rewrite Hbody; py_unfold; cbn [wenv wsrv wnow wtrace wtie sparser sreg sretries sdelay];
@@ -163,14 +163,14 @@ Ltac wait_loop_tac d :=
     match goal with |- context [packet ?p] => let x := fresh "x" in let p' := fresh "p'" in destruct (packet p) as [x p']; cbn;
       let c := fresh "c" in let i := fresh "i" in let payload := fresh "payload" in
       destruct x as [[c i payload|]|]; cbn;
-      try (apply IH; cbn; exact Hl);
+      try (apply IH; intros; cbn; apply Hl);
       rewrite ?crc_Z, ?cidN_cidZ;
-      (destruct (cid_eqb (c, i) CID_CRC_ERROR); cbn; [apply IH; cbn; exact Hl|]);
+      (destruct (cid_eqb (c, i) CID_CRC_ERROR); cbn; [apply IH; intros; cbn; apply Hl|]);
       let name := fresh "name" in let rk := fresh "rk" in
-      (destruct (reg_lookup _ _) as [[name rk]|]; cbn; [|apply IH; cbn; exact Hl]);
+      (destruct (reg_lookup _ _) as [[name rk]|]; cbn; [|apply IH; intros; cbn; apply Hl]);
       let Hb := fresh "Hb" in
       (destruct (build_with_data sk rk payload) eqn:Hb; cbn; [reflexivity|]);
-      destruct (build_raises _ _ _ _ Hb) as [ -> | [ -> | [ -> | -> ] ] ]; cbn; apply IH; cbn; exact Hl
+      destruct (build_raises _ _ _ _ Hb) as [ -> | [ -> | [ -> | -> ] ] ]; cbn; apply IH; intros; cbn; apply Hl
     end ].
 
 (* _wait(time_end) and _wait() *)
@@ -180,15 +180,17 @@ Theorem bridge_wait : forall fuel (w : W),
 Proof.
   intros fuel w. split; [intros d|]; unfold g_wait; cbn.
   - match goal with |- run_body (s_while fuel ?c ?b ?l0 w) = _ =>
-      assert (Hloop : forall body, (forall l w, body l w = b l w) -> forall k l w, wait__time_end l = PInt (Z.of_N d) ->
+      assert (Hloop : forall body, (forall l w, body l w = b l w) -> forall k l w,
+                 (forall w0 : W, c l w0 = p_before w0 (PInt (Z.of_N d))) ->
                  run_body (s_while k c body l w) = lift_wait (wait B sk k d w)) by wait_loop_tac d;
-      apply Hloop; reflexivity end.
+      apply Hloop; [reflexivity | intros; reflexivity] end.
   - set (d := wnow w + sdelay (wsrv w)).
     match goal with |- run_body (s_while fuel ?c ?b ?l0 w) = _ =>
-      assert (Hloop : forall body, (forall l w, body l w = b l w) -> forall k l w, wait__time_end l = PInt (Z.of_N d) ->
+      assert (Hloop : forall body, (forall l w, body l w = b l w) -> forall k l w,
+                 (forall w0 : W, c l w0 = p_before w0 (PInt (Z.of_N d))) ->
                  run_body (s_while k c body l w) = lift_wait (wait B sk k d w)) by wait_loop_tac d;
       apply Hloop; [reflexivity|] end.
-    cbn. unfold d. rewrite N2Z.inj_add. reflexivity.
+    intros w0. cbn. unfold d. rewrite N2Z.inj_add. reflexivity.
 Qed.
 
 Ltac zn :=
@@ -439,8 +441,9 @@ Proof.
              discriminate.
           -- destruct j as [|j]; [lia|]. cbn. eexists. repeat split; cbn; try reflexivity; assumption.
         * apply (IH j _ w2 false resp d); cbn; try assumption; try reflexivity; lia.
-    - (* timeout *)
-      eexists. repeat split; cbn; try reflexivity; assumption. }
+    - (* timeout: left by `break`, or by the loop condition at the next iteration *)
+      first [ eexists; repeat split; cbn; try reflexivity; assumption
+            | destruct j as [|j]; [lia|]; cbn; eexists; repeat split; cbn; try reflexivity; assumption ]. }
   match goal with |- context [s_for_range _ ?b] =>
     assert (Hfor : forall body, (forall l w, body l w = b l w) -> forall payload (n : nat) (w1 : W) (l0 : L_poll),
       poll__frame_poll l0 = PReq rq (Some payload) ->
